@@ -315,7 +315,7 @@ fn de_dispatch(p: u64, q: u64, j: &str) -> Value {
     return "\n".join(L) + "\n"
 
 
-def build_and_run(ctx, tag, programs, features=(), env_extra=None, de_queries=None):
+def build_and_run(ctx, tag, programs, features=(), env_extra=None, de_queries=None, no_default=False):
     """returns (per-program outputs [list of probe dicts], de_results or None), or (None, None) if the crate does not build"""
     d = os.path.join(vlib.BUILD, f"e2e-{tag}")
     os.makedirs(os.path.join(d, "src"), exist_ok=True)
@@ -329,7 +329,7 @@ version = "0.1.0"
 edition = "2021"
 [workspace]
 [dependencies]
-ts-rs = {{ path = "{vlib.REPO}/ts-rs", features = [{feats}] }}
+ts-rs = {{ path = "{vlib.REPO}/ts-rs", features = [{feats}]{', default-features = false' if no_default else ''} }}
 serde = {{ version = "1", features = ["derive", "rc"] }}
 serde_json = "1"
 [profile.dev]
